@@ -6,7 +6,7 @@
 From Coq Require Extraction ExtrOcamlBasic.
 From RT Require Import Model.Segments Model.Bytes Model.Records Model.Heap Model.Merge Model.Overlay
   Model.Refname Model.Result Model.Varint Model.KeyCodec Model.RecCodec Model.Block Model.Crc32
-  Model.Writer Model.Reader Model.Compact Model.StackSeq Model.SpecDecoder Model.StackTrace.
+  Model.Writer Model.Reader Model.Compact Model.StackSeq Model.SpecDecoder Model.StackTrace Model.StackProto.
 Extraction Language OCaml.
 Separate Extraction
   Segments.suggest Segments.log2_go Segments.log2 Segments.sizes_to_segments
@@ -28,5 +28,6 @@ Separate Extraction
   StackSeq.stack_add StackSeq.stack_compact StackSeq.stack_compact_all StackSeq.stack_auto StackSeq.decode_table
   Overlay.merge2 Overlay.live
   SpecDecoder.spec_decode
+  StackProto.trace_of
   StackTrace.c04_ok StackTrace.c05_ok StackTrace.c06_ok StackTrace.c08_ok StackTrace.c09_ok StackTrace.c10_ok StackTrace.c16_ok
   Reader.rd_open Reader.scan_refs Reader.scan_logs Reader.seek_ref Reader.seek_log Reader.refs_for.
